@@ -52,6 +52,10 @@ def src_files():
 SRC_ORDER = ['GenPrim', 'GenWidthP', 'GenPrimP', 'GenDiv', 'GenDivP', 'GenLoopP', 'GenIterP', 'GenUint', 'GenUintP', 'GenMod', 'GenModP',
              'GenShift', 'GenShiftP', 'GenMul', 'GenMulP', 'GenInt', 'GenIntP', 'GenDivLimb', 'GenDivLimbP', 'GenBits', 'GenBitsP', 'GenDivCt', 'GenDivCtP', 'GenMonty', 'GenMontyP', 'GenHex', 'GenHexP',
              'GenSqrt', 'GenSqrtP', 'GenIntDiv', 'GenIntDivP', 'GenMulMod', 'GenMulModP', 'GenAmm', 'GenAmmP']
+# source-derived leakage model of C01 (tools/rs2v_leak.py): Leak<G>.v is generated next to Gen<G>.v, Leak<G>P.v is hand-written
+_LEAK_GROUPS = ['Prim', 'Div', 'Uint', 'Mod', 'Shift', 'Mul', 'Int', 'DivLimb', 'Monty', 'Hex', 'Bits', 'DivCt']
+_LEAK = ['LeakIterP'] + [x for g in _LEAK_GROUPS for x in ('Leak' + g, 'Leak' + g + 'P')]
+SRC_ORDER += _LEAK
 _PRIM = ['GenPrim', 'GenWidthP', 'GenPrimP']
 _UINT = _PRIM + ['GenLoopP', 'GenUint', 'GenUintP']
 SRC_NEEDS = {'C02': _PRIM + ['GenDiv', 'GenDivP', 'GenLoopP', 'GenIterP', 'GenUint', 'GenUintP', 'GenShift', 'GenShiftP', 'GenMul', 'GenMulP',
@@ -60,6 +64,7 @@ SRC_NEEDS = {'C02': _PRIM + ['GenDiv', 'GenDivP', 'GenLoopP', 'GenIterP', 'GenUi
              'C13': _UINT + ['GenInt', 'GenIntP'],
              'C08': _UINT + ['GenIterP', 'GenMod', 'GenModP', 'GenShift', 'GenMul', 'GenMulP', 'GenMonty', 'GenMontyP'],
              'C16': ['GenHex', 'GenHexP']}
+SRC_NEEDS['C01'] = ['Gen' + g for g in _LEAK_GROUPS] + _LEAK
 _DIVCT = SRC_NEEDS['C02']
 SRC_NEEDS['C20'] = _DIVCT + ['GenInt', 'GenIntP', 'GenSqrt', 'GenSqrtP']
 SRC_NEEDS['C07'] = _PRIM + ['GenDiv', 'GenDivP', 'GenLoopP', 'GenIterP', 'GenUint', 'GenUintP', 'GenMod', 'GenModP', 'GenShift', 'GenShiftP', 'GenMul', 'GenMulP',
@@ -87,6 +92,15 @@ def _src_tie_locked(pid, f):
         report = json.load(open(os.path.join(COQ, 'Src', 'rs2v_report.json')))
     except Exception:
         pass
+    leak = os.path.join(ROOT, 'tools', 'rs2v_leak.py')
+    if os.path.exists(leak) and pid == 'C01':
+        # the instrumented twins l_<name> of the same kernels (leakage model of C01), from the same source text
+        rc2, out2 = sh([sys.executable, leak, REPO, os.path.join(COQ, 'Src')])
+        rc = rc or rc2; out += out2
+        try:
+            report.update(json.load(open(os.path.join(COQ, 'Src', 'rs2v_leak_report.json'))))
+        except Exception:
+            pass
     failed = ['%s (%s)' % (k, v) for r in report.values() for k, v in r if not v.startswith('ok')]
     problems = []
     if rc != 0:
@@ -97,6 +111,10 @@ def _src_tie_locked(pid, f):
         rc, out = sh(['coqc', '-Q', '.', 'CB', '-w', '-all', 'Src/%s.v' % m], cwd=COQ, timeout=1800)
         if rc != 0:
             why = 'the source text of a modelled kernel changed' if not failed else 'rs2v could not translate: ' + '; '.join(failed[:6])
+            if m.startswith('Leak') and not failed:
+                why = ('source-derived leakage model: for the current source text an instrumented kernel is no longer consistent with the tied '
+                       'text or no longer noninterferent -- a branch condition / index / division operand / trip count depends on a secret '
+                       'operand, or the kernel changed')
             problems.append('translator tie: Src/%s.v no longer checks against the text generated from %s (%s):\n%s' % (m, REPO, why, out[-2500:]))
             return theorems, [], problems, report
     t, c, p = check_props_file(f)
